@@ -64,6 +64,11 @@ pub struct Round {
     /// internally until the terminal has answered, and must not lose what arrives meanwhile
     #[serde(default)]
     pub position: Option<PosRound>,
+    /// (wake rounds) as soon as the poll under test has returned -- before any further poll is
+    /// entered -- one more wake request is issued: it must be delivered by the following polls
+    /// even though the previous request has just been delivered
+    #[serde(default)]
+    pub wake_again: bool,
 }
 
 #[derive(Clone, Debug, Serialize, Deserialize)]
@@ -386,6 +391,13 @@ fn run_session(case: &Case) -> Result<(Pass, bool), Fail> {
                 return Err(Fail::new("session/poll-error", format!("round {ri}: poll failed: {e:?}")));
             }
         }
+        // a second request between two polls (no poll has been entered since the one above)
+        let mut wake_again_base: Option<usize> = None;
+        if round.wake_again && matches!(round.what, What::Wake { .. }) && round.position.is_none() && fired.get() && !held {
+            wake_again_base = Some(events.iter().filter(|e| matches!(e, TerminalEvent::Wake)).count());
+            do_wakes(&waker, 1);
+            labels.push("wake-again-right-after-delivery");
+        }
         if rescued.load(Ordering::Relaxed) {
             rescue_used = true;
             if fired.get() {
@@ -548,6 +560,16 @@ fn run_session(case: &Case) -> Result<(Pass, bool), Fail> {
                     round,
                     events
                 );
+                let calls = calls + wake_again_base.is_some() as usize;
+                if let Some(base) = wake_again_base {
+                    ensure!(
+                        wakes > base,
+                        "wake/lost-after-previous-delivery",
+                        "round {ri} ({:?}): the poll under test returned having delivered {base} Wake event(s); a further wake request issued right afterwards (before any other poll) completed, but the following polls delivered no further Wake event; events {:?}",
+                        round,
+                        events
+                    );
+                }
                 ensure!(
                     wakes <= calls,
                     "wake/more-events-than-requests",
@@ -917,7 +939,7 @@ impl Property for C17 {
             )
                 .prop_map(|(delay_ms, at, post)| PosRound { delay_ms, at, post }),
         );
-        let round = (what, place, timeout, pending, any::<bool>(), pos_round).prop_map(|(what, place, timeout, pending_output, hold, position)| {
+        let round = (what, place, timeout, pending, any::<bool>(), pos_round, proptest::bool::weighted(0.3)).prop_map(|(what, place, timeout, pending_output, hold, position, wake_again)| {
             // position(): the requests must reach a terminal that reads; typed characters keep
             // their order of arrival only if those of the action are typed before the request
             let (place, timeout, pending_output) = match &position {
@@ -940,7 +962,7 @@ impl Property for C17 {
                 (_, p) => p,
             };
             let hold_stall = hold && pending_output > 4096 && timeout != Timeout::Infinite;
-            Round { what, place, timeout, pending_output, hold_stall, position }
+            Round { what, place, timeout, pending_output, hold_stall, position, wake_again }
         });
         let exit = prop_oneof![
             3 => Just(Exit::Drop),
@@ -978,7 +1000,7 @@ impl Property for C17 {
     }
 
     fn rule(&self) -> String {
-        "session = real SystemTerminal on a pseudo-terminal (one per worker process) with a scripted peer; 0-4 rounds, each: {1-3 concurrent wake calls from other threads | the peer types 1-6 characters | raise(SIGWINCH)} placed before the poll or at one of 7 named points (loop start, before/after select, before signal processing, before the waker read, before the tty read, loop end) of loop iteration 0-2 of a poll with timeout 0 / 50 ms / none, optionally with 1-40000 bytes of output pending (above 4096 the peer is stalled, for 30 ms or -- finite timeouts, half of those rounds -- until the round's events have been delivered, which zero-timeout polls must achieve within 2 s although the output stays pending); then drained with zero-timeout polls. One round in ten calls Terminal::position() instead of poll: the peer answers the cursor position request after 0 / 1-59 / 200-399 / 1200 ms, optionally typing 1-3 characters in the same write as its answer; nothing that arrived meanwhile may be lost or reordered. Oracles: >=1 and <= #calls Wake events for wake rounds, typed characters delivered in order, >=1 Resize per SIGWINCH round, no spurious Wake. Exit path: drop | drop with pending output | Terminal::run handler error/quit at step k | run_render handler error at step k | SIGTERM/SIGINT/SIGQUIT (must surface as Error::Quit) | SIGTERM/SIGINT/SIGQUIT raised at one of the 7 points of the first poll iteration inside drop | drop with the front chunk of the output queue partly transmitted (peer stalled, 20-200 kB written and polled, 1-3000 more bytes queued, peer resumes, drop) | an application that switched mouse reporting on and the cursor off, wrote a frame, queued its own cursor-visible/mouse-off commands behind it (optionally polled once) and is dropped: the last set/reset the tty received for modes 1000, 1003, 1006 must be reset and for mode 25 set | master closed first; one session in four runs on a pty whose ioctl reports no pixel size while the peer answers CSI 18 t CSI 14 t, so the terminal object takes its size from escape sequences and answers SIGWINCH by asking the terminal (the Resize event then gets the same bounded 2 s as typed characters); afterwards tcgetattr on the slave must equal the snapshot taken before open and (master still open) the bytes received after the last application output must contain ESC[?1003l, ESC[?1006l, ESC[?1000l and ESC[?25h. non-trivial = a trigger placed strictly inside a poll or inside the release, or output pending during a round or at release".into()
+        "session = real SystemTerminal on a pseudo-terminal (one per worker process) with a scripted peer; 0-4 rounds, each: {1-3 concurrent wake calls from other threads | the peer types 1-6 characters | raise(SIGWINCH)} placed before the poll or at one of 7 named points (loop start, before/after select, before signal processing, before the waker read, before the tty read, loop end) of loop iteration 0-2 of a poll with timeout 0 / 50 ms / none, optionally with 1-40000 bytes of output pending (above 4096 the peer is stalled, for 30 ms or -- finite timeouts, half of those rounds -- until the round's events have been delivered, which zero-timeout polls must achieve within 2 s although the output stays pending); then drained with zero-timeout polls. One round in ten calls Terminal::position() instead of poll: the peer answers the cursor position request after 0 / 1-59 / 200-399 / 1200 ms, optionally typing 1-3 characters in the same write as its answer; nothing that arrived meanwhile may be lost or reordered. In 30% of the wake rounds one more wake request is issued as soon as the poll under test has returned, before any other poll is entered; it must produce a further Wake event. Oracles: >=1 and <= #calls Wake events for wake rounds, typed characters delivered in order, >=1 Resize per SIGWINCH round, no spurious Wake. Exit path: drop | drop with pending output | Terminal::run handler error/quit at step k | run_render handler error at step k | SIGTERM/SIGINT/SIGQUIT (must surface as Error::Quit) | SIGTERM/SIGINT/SIGQUIT raised at one of the 7 points of the first poll iteration inside drop | drop with the front chunk of the output queue partly transmitted (peer stalled, 20-200 kB written and polled, 1-3000 more bytes queued, peer resumes, drop) | an application that switched mouse reporting on and the cursor off, wrote a frame, queued its own cursor-visible/mouse-off commands behind it (optionally polled once) and is dropped: the last set/reset the tty received for modes 1000, 1003, 1006 must be reset and for mode 25 set | master closed first; one session in four runs on a pty whose ioctl reports no pixel size while the peer answers CSI 18 t CSI 14 t, so the terminal object takes its size from escape sequences and answers SIGWINCH by asking the terminal (the Resize event then gets the same bounded 2 s as typed characters); afterwards tcgetattr on the slave must equal the snapshot taken before open and (master still open) the bytes received after the last application output must contain ESC[?1003l, ESC[?1006l, ESC[?1000l and ESC[?25h. non-trivial = a trigger placed strictly inside a poll or inside the release, or output pending during a round or at release".into()
     }
 
     fn assumptions(&self) -> Vec<String> {
